@@ -14,7 +14,7 @@ theorem primsOK_of_rates (P : Params) (h : Nat) (R : Rel DB)
     (hkeep : ∀ s s', s'.rates = s.rates → R.r s s')
     (hins : ∀ tok v, Step R (insertRate h tok v)) : PrimsOK P h R where
   addBal _ _ _ := guarded_keep (·.rates) hkeep (fun _ => rfl)
-  subBal a t v := subBal_step_of P a t v (guarded_keep (·.rates) hkeep (fun _ => rfl)) (guarded_keep (·.rates) hkeep (fun _ => rfl))
+  subBal a t v _ := subBal_step_of P a t v (guarded_keep (·.rates) hkeep (fun _ => rfl)) (guarded_keep (·.rates) hkeep (fun _ => rfl))
   insertRate := hins
   insertHistBatch _ := guarded_keep (·.rates) hkeep (fun _ => rfl)
   insertHistTx _ := guarded_keep (·.rates) hkeep (fun _ => rfl)
@@ -37,7 +37,7 @@ theorem primsOK_of_rels (P : Params) (h : Nat) (R : Rel DB)
     (hkeep : ∀ s s', s'.rels = s.rels → R.r s s')
     (hins : ∀ hash a i t c, Step R (insertRelation hash a i t c)) : PrimsOK P h R where
   addBal _ _ _ := guarded_keep (·.rels) hkeep (fun _ => rfl)
-  subBal a t v := subBal_step_of P a t v (guarded_keep (·.rels) hkeep (fun _ => rfl)) (guarded_keep (·.rels) hkeep (fun _ => rfl))
+  subBal a t v _ := subBal_step_of P a t v (guarded_keep (·.rels) hkeep (fun _ => rfl)) (guarded_keep (·.rels) hkeep (fun _ => rfl))
   insertRate _ _ := guarded_keep (·.rels) hkeep (fun _ => rfl)
   insertHistBatch _ := guarded_keep (·.rels) hkeep (fun _ => rfl)
   insertHistTx _ := guarded_keep (·.rels) hkeep (fun _ => rfl)
@@ -60,7 +60,7 @@ theorem primsOK_of_addrs (P : Params) (h : Nat) (R : Rel DB)
     (hkeep : ∀ s s', s'.addrs = s.addrs → R.r s s')
     (hadd : ∀ a t v, Step R (addBal P a t v)) (hsub : ∀ a t v, Step R (subBal P a t v)) : PrimsOK P h R where
   addBal := hadd
-  subBal := hsub
+  subBal a t v _ := hsub a t v
   insertRate _ _ := guarded_keep (·.addrs) hkeep (fun _ => rfl)
   insertHistBatch _ := guarded_keep (·.addrs) hkeep (fun _ => rfl)
   insertHistTx _ := guarded_keep (·.addrs) hkeep (fun _ => rfl)
